@@ -62,12 +62,14 @@ func (mach *unmarshalMachineMapStringWildcard) Step(driver *Unmarshaller, slab *
 	panic("unreachable")
 }
 
-func (mach *unmarshalMachineMapStringWildcard) step_Initial(_ *Unmarshaller, _ *unmarshalSlab, tok *Token) (done bool, err error) {
+func (mach *unmarshalMachineMapStringWildcard) step_Initial(_ *Unmarshaller, slab *unmarshalSlab, tok *Token) (done bool, err error) {
 	// If it's a special state, start an object.
 	//  (Or, blow up if its a special state that's silly).
 	switch tok.Type {
 	case TNull:
 		mach.target_rv.Set(reflect.Zero(mach.target_rv.Type()))
+		// release the slab row we requisitioned for our value machine.
+		slab.release()
 		return true, nil
 	case TMapOpen:
 		// Great.  Consumed.
